@@ -158,19 +158,28 @@ pub fn gen_c17(rng: &mut Rng, run_seed: u64, miri: bool) -> Program {
     // sometimes: lower the maximum and despawn while pool threads are busy in bodies that will go on to schedule more work
     if cur >= 2 && !miri && rng.chance(1, 2) {
         let k = rng.range(1, cur as u64) as usize;
+        let k = k.min(3);
+        // sometimes one more pool thread has died from a panicking job by the time the maximum is lowered (one slot and one object
+        // must be free for that job): the despawn then finds a dead thread among those it retires
+        let with_dead = k < cur && k <= 2 && rng.chance(1, 2);
         let mut occupy = vec![]; let mut acts = vec![];
-        for o in 0..k.min(3) {
+        for o in 0..k {
             let h = prog.new_hold();
-            let nested = prog.add_op((o + 1) % 3, Kind::Desync, Disp::None, vec![Step::Touch]);
+            let nested = prog.add_op(if with_dead { (o + 1) % k } else { (o + 1) % 3 }, Kind::Desync, Disp::None, vec![Step::Touch]);
             let id = prog.add_op(o, Kind::Desync, Disp::None, vec![Step::Touch, Step::Hold(h), Step::Nest(nested), Step::Touch]);
             prog.ops[nested].parent = Some(id);
             acts.push(TAct::Op(id)); occupy.push(h);
         }
-        let lower = rng.below(k.min(3) as u64) as usize;   // below the number of busy threads: busy threads have to be retired
-        prog.phases.push(Phase { name: "lower_maximum_while_busy", threads: vec![acts], occupy, lower_while_busy: Some(lower), ..Default::default() });
+        let mut dying_op = None;
+        if with_dead {
+            let id = prog.add_op(k, Kind::Desync, Disp::None, vec![Step::Touch, Step::Panic]);
+            acts.push(TAct::Op(id)); dying_op = Some(id); prog.panics = true;
+        }
+        let lower = rng.below(k as u64) as usize;   // below the number of busy threads: busy threads have to be retired
+        prog.phases.push(Phase { name: if with_dead { "lower_maximum_while_busy_with_a_dead_thread" } else { "lower_maximum_while_busy" }, threads: vec![acts], occupy, lower_while_busy: Some(lower), dying_op, ..Default::default() });
         if lower == 0 {
             // whatever was scheduled from inside the retired jobs is carried by a sync afterwards
-            let mut sweep = vec![]; for o in 0..3 { let id = prog.add_op(o, Kind::Sync, Disp::None, vec![Step::Touch]); sweep.push(TAct::Op(id)); }
+            let mut sweep = vec![]; for o in 0..3 { if with_dead && o == k { continue; } let id = prog.add_op(o, Kind::Sync, Disp::None, vec![Step::Touch]); sweep.push(TAct::Op(id)); }
             prog.phases.push(Phase { name: "after_lowering_to_zero", threads: vec![sweep], ..Default::default() });
         }
     }
